@@ -34,13 +34,15 @@ type final struct {
 func finish(e *sched.Exec, w *schedfx.World) func() {
 	return func() {
 		f := &final{}
-		evs, closed := w.Lst.StopCheck()
-		for _, ev := range evs {
-			f.events = append(f.events, w.EventStr(ev))
-		}
-		f.lstClosed = closed
+		e.Guarded("cancel and drain of the listener", func() {
+			evs, closed := w.Lst.StopCheck()
+			for _, ev := range evs {
+				f.events = append(f.events, w.EventStr(ev))
+			}
+			f.lstClosed = closed
+		})
 		e.Data = f
-		w.Close()
+		w.CloseGuarded()
 	}
 }
 
@@ -92,7 +94,12 @@ func common(e *sched.Exec, name string, mustFinish []string) []sched.Finding {
 			}
 		}
 	}
-	if f, ok := e.Data.(*final); ok && !f.lstClosed {
+	for _, what := range e.CleanupHung {
+		if len(out) == 0 {
+			out = append(out, sched.Finding{Sig: name + ":later-call-never-returns", Msg: "after the explored part: " + what + " never returns"})
+		}
+	}
+	if f, ok := e.Data.(*final); ok && !f.lstClosed && len(e.CleanupHung) == 0 {
 		out = append(out, sched.Finding{Sig: name + ":listener-channel-not-closed", Msg: "a listener registered before Close still has an open channel after Close and cancel"})
 	}
 	if len(e.Leaked) > 0 && len(out) == 0 {
@@ -155,6 +162,53 @@ func explicitVsClose(nClose int) *sched.Scenario {
 					}
 				}
 			}
+			return out
+		},
+	}
+}
+
+// K7: explicit syncs of two publishers || Close. Each sync that finishes
+// produces a notification; the shutdown sequence has to keep whatever consumes
+// them alive until the syncs it waits for have ended.
+func twoExplicitVsClose() *sched.Scenario {
+	name := "K7-two-publishers-explicit-syncs-vs-close"
+	return &sched.Scenario{Name: name,
+		Setup: func(e *sched.Exec) ([]sched.Thread, func()) {
+			w := schedfx.New(e, schedfx.Options{Pubs: 2, ChainLen: 2, Announce: true, Prestore: true})
+			var ths []sched.Thread
+			for pi := range w.Pubs {
+				pi := pi
+				p, ch := w.Pubs[pi], w.Chains[pi]
+				p.Publisher.SetRoot(ch.Cids[1])
+				tn := fmt.Sprintf("E%d", pi)
+				ths = append(ths, sched.Thread{Name: tn, Fn: func() {
+					e.Log("%s call SyncAdChain", tn)
+					_, err := w.Sub.SyncAdChain(context.Background(), p.AddrInfo())
+					res := "ok"
+					if err != nil {
+						res = "err:" + err.Error()
+					}
+					e.Log("%s ret SyncAdChain %s", tn, res)
+				}})
+			}
+			ths = append(ths, closeThread(e, w, "C1"))
+			return ths, finish(e, w)
+		},
+		Check: func(e *sched.Exec) []sched.Finding {
+			out := common(e, name, []string{"E0", "E1", "C1"})
+			nok := 0
+			for _, l := range e.Obs() {
+				if i := strings.Index(l, " ret SyncAdChain "); i >= 0 {
+					res := l[i+len(" ret SyncAdChain "):]
+					if res == "ok" {
+						nok++
+					}
+					if res != "ok" && res != "err:shutdown" {
+						out = append(out, sched.Finding{Sig: name + ":running-explicit-sync-did-not-finish", Msg: l})
+					}
+				}
+			}
+			e.Class = fmt.Sprintf("syncs-completed=%d", nok)
 			return out
 		},
 	}
@@ -340,7 +394,7 @@ func postClose(call string) *sched.Scenario {
 
 func TestCheck(t *testing.T) {
 	r := vp.New("C15", "model_checking",
-		"scenarios on the real subscriber built with the instrumentation overlay (gated in-memory publisher, chain of 2-3 signed ads): K1 explicit sync (queried head) || Close, with one and with two concurrent Close callers; K2 announce-triggered sync || Close; K6 two announcements of one publisher and Close with every block already local, the first sync held in its block hook until nothing else can move (a sync still pending when Close cancels must be abandoned); K3 listener registration and cancellation || Close; K5 each of 11 entry points called after Close has returned. All interleavings at the scheduling points (locks, atomics, channel operations, selects, spawns, requests, hook calls, observations) up to the preemption bound, so Close starts at every point of a sync. 'Blocks forever' is decided by quiescence with the caller not finished. states = distinct decision states; transitions = scheduling steps; traces = executions of the real code.",
+		"scenarios on the real subscriber built with the instrumentation overlay (gated in-memory publisher, chain of 2-3 signed ads): K1 explicit sync (queried head) || Close, with one and with two concurrent Close callers; K7 explicit syncs of two publishers || Close; K2 announce-triggered sync || Close; K6 two announcements of one publisher and Close with every block already local, the first sync held in its block hook until nothing else can move (a sync still pending when Close cancels must be abandoned); K3 listener registration and cancellation || Close; K5 each of 11 entry points called after Close has returned. All interleavings at the scheduling points (locks, atomics, channel operations, selects, spawns, requests, hook calls, observations) up to the preemption bound, so Close starts at every point of a sync. 'Blocks forever' is decided by quiescence with the caller not finished. states = distinct decision states; transitions = scheduling steps; traces = executions of the real code.",
 		"cooperative scheduling at synchronization operations; priority selects in source order; one publisher",
 		"goroutine leak = a goroutine of the bubble with a go-libipni frame after Close and cleanup",
 	)
@@ -353,7 +407,7 @@ func TestCheck(t *testing.T) {
 	if vp.Thorough() {
 		bound = 3
 	}
-	scs := []*sched.Scenario{pendingAnnounceVsClose(), explicitVsClose(1), explicitVsClose(2), announceVsClose(), listenerVsClose()}
+	scs := []*sched.Scenario{pendingAnnounceVsClose(), twoExplicitVsClose(), explicitVsClose(1), explicitVsClose(2), announceVsClose(), listenerVsClose()}
 	for _, c := range []string{"SyncAdChain", "SyncEntries", "SyncOneEntry", "SyncHAMTEntries", "Announce", "OnSyncFinished", "GetLatestSync", "SetLatestSync", "RemoveHandler", "HttpPeerStore", "Close"} {
 		scs = append(scs, postClose(c))
 	}
